@@ -1,10 +1,9 @@
 (* C03 / C06 — the public-identifier field of the document the WBXML encoder writes on the wide fragment, so that the
    round trip also holds when the second conversion is NOT told the language: the proof of
    EncWbxmlDenote3.strict_decode_of_encoding3 is replayed with the abstract document kept in view (abs_doc2 e st' root:
-   its wd_pub is PubNum (header_public_id e) whenever the public id is written as a number), then
-   Spec.lang_of_pub finds the language by that number (ConvRoundTrip.lang_choice, unforced branch).
-   When the public id is written as a STRING (language without numeric id, not anonymous) the unforced reading needs
-   str_at on the written table and the case-insensitive comparison; lang_choice does not offer that branch. *)
+   its wd_pub is PubNum (header_public_id e) whenever the public id is written as a number; when it is written as a
+   STRING p - language without numeric id, not anonymous - wd_pub is PubIdx i with str_at (wd_strtbl d) i = Some p),
+   then Spec.lang_of_pub finds the language by that number or by that string (lang_choiceW). *)
 From Coq Require Import String Ascii.
 From Coq Require Import List NArith ZArith Lia Bool.
 From Wbxml Require Import Model.Codec Model.TablesDefs Model.Parser Model.Spec Model.TreeBuild Model.TreeConv Model.Conv Model.ConvConcrete
@@ -30,7 +29,9 @@ Theorem strict_decode_of_encoding3_pub tblb TBL L o tag attrs ch bs :
   E.enc_wbxml tblb (D2.to_blang L) o [E.NElt tag attrs ch] = E.EOk bs ->
   exists d evs, bs = serialize d /\ denote_with TBL (Some L) d = Some evs /\
             EV.merge_chars evs = EV.merge_chars (D3.doc_events3 L e (E.o_keep_ws o) (E.NElt tag attrs ch)) /\
-            (AB.header_pid e = None -> wd_pub d = PubNum (E.header_public_id e)).
+            (AB.header_pid e = None -> wd_pub d = PubNum (E.header_public_id e)) /\
+            (forall p, AB.header_pid e = Some p ->
+               exists i, wd_pub d = PubIdx i /\ str_at (wd_strtbl d) i = Some p /\ blen (wd_strtbl d) < 4294967296).
 Proof.
   cbv zeta. intros HP HV HX HT Hv Hp1 Hp0 Hpid Hlen He. set (e := E.enc_env (D2.to_blang L) o) in *.
   assert (HF : AB.frag2_node e (E.NElt tag attrs ch) = true) by (apply (D3.tree_ok3_frag2 L e eq_refl _ 0 HT)).
@@ -43,17 +44,45 @@ Proof.
   destruct (D3.final_facts tblb L o tag attrs ch _ st' root HT EB AN Hpid Hsz) as (G1 & G2 & G3 & G4 & G5 & G6 & G7 & G8 & G9).
   pose proof (AB.header_len_ok_holds tblb (D2.to_blang L) o tag attrs ch _ st' root EB AN G8 G9) as HL.
   destruct (D3.abs_doc3_denotes TBL L o tag attrs ch st' root HP HV HX HT AN G1 G2 G3 G4 Hv Hp1 Hp0 G5 G6 G7) as (evs & Hden & MG).
-  exists (AB.abs_doc2 e st' root), evs. split; [exact (HS HL)|]. split; [exact Hden|]. split; [exact MG|].
-  intros Hn. unfold AB.abs_doc2. destruct (AB.header_table e st') as [[idx t] tl]. cbn [wd_pub]. rewrite Hn. reflexivity.
+  exists (AB.abs_doc2 e st' root), evs. split; [exact (HS HL)|]. split; [exact Hden|]. split; [exact MG|]. split.
+  - intros Hn. unfold AB.abs_doc2. destruct (AB.header_table e st') as [[idx t] tl]. cbn [wd_pub]. rewrite Hn. reflexivity.
+  - intros p Hp. rewrite Hp in Hpid.
+    assert (Hstr : wd_strtbl (AB.abs_doc2 e st' root) = AB.doc_strtbl e st').
+    { unfold AB.abs_doc2. destruct (AB.header_table e st') as [[idx t] tl]. reflexivity. }
+    assert (Hpb : wd_pub (AB.abs_doc2 e st' root) = PubIdx (D3.final_idx e st')).
+    { unfold AB.abs_doc2, D3.final_idx. destruct (AB.header_table e st') as [[idx t] tl]. cbn [wd_pub]. rewrite Hp. reflexivity. }
+    exists (D3.final_idx e st'). split; [exact Hpb|]. rewrite Hstr. split; [|exact G6].
+    destruct (E.e_use_strtbl e) eqn:HU.
+    + assert (Hx : exists x, In x (D3.final_tbl e st') /\ E.s_off x = D3.final_idx e st' /\ E.s_str x = p).
+      { unfold D3.final_tbl, D3.final_idx, AB.header_table. rewrite Hp, HU.
+        destruct (E.strtbl_add (E.strtbl st') (E.strtbl_len st') p) as [[idx t] tl] eqn:A.
+        exact (TK.strtbl_add_entry _ _ _ _ _ _ A). }
+      destruct Hx as (x0 & Hin0 & Hoff0 & Hstr0). pose proof (G1 x0 Hin0) as H. rewrite Hoff0, Hstr0 in H. exact (H Hpid).
+    + assert (Hi0 : D3.final_idx e st' = 0) by (unfold D3.final_idx, AB.header_table; rewrite Hp, HU; reflexivity).
+      assert (Hd0 : AB.doc_strtbl e st' = p ++ [0]) by (unfold AB.doc_strtbl, AB.header_table; rewrite Hp, HU; reflexivity).
+      rewrite Hi0, Hd0. unfold str_at.
+      assert (Hlt : (0 <? blen (p ++ [0])) = true).
+      { apply N.ltb_lt. unfold blen. rewrite app_length. cbn [length]. lia. }
+      rewrite Hlt. unfold drop. cbn [N.to_nat skipn]. f_equal. exact (TK.until_nul_okb p [] Hpid).
 Qed.
 
-(* the tree of the second conversion, the language forced or found by the numeric public identifier *)
+Lemma ci_eqb_refl a : ci_eqb a a = true.
+Proof. induction a as [|x r IH]; [reflexivity|]. cbn [ci_eqb]. rewrite N.eqb_refl, IH. reflexivity. Qed.
+
+(* how the second conversion is told the language on the wide fragment: as lang_choice (forced, or found by the numeric
+   public id), or not forced and found by the TEXTUAL public id the encoder wrote into the string table *)
+Definition lang_choiceW (TBL : list lang) (L : lang) (e : E.env) (forced : N) : Prop :=
+  lang_choice TBL L (E.header_public_id e) forced \/
+  (forced = 0 /\ exists p, AB.header_pid e = Some p /\
+     find (fun l => match l_pub_text l with Some t => ci_eqb (B t) p | None => false end) TBL = Some L).
+
+(* the tree of the second conversion, the language forced or found by the public identifier *)
 Theorem roundtrip_wide_choice tblb TBL L o tag attrs ch bs forced :
   let e := E.enc_env (D2.to_blang L) o in
   AB.plain_env e = true -> D2.vals_ok L = true -> l_exts L = None ->
   TK.tree_ok3 L 0 (E.NElt tag attrs ch) = true ->
   find (fun x => l_id x =? l_id L) TBL = Some L ->
-  lang_choice TBL L (E.header_public_id e) forced ->
+  lang_choiceW TBL L e forced ->
   E.o_version o < 4 -> E.header_public_id e < 4294967296 -> E.header_public_id e <> 0 ->
   (match AB.header_pid e with Some p => D2.okb p = true | None => True end) ->
   E.len bs < 4294967296 ->
@@ -65,10 +94,10 @@ Theorem roundtrip_wide_choice tblb TBL L o tag attrs ch bs forced :
 Proof.
   cbv zeta. intros HP HV HX HT HFind Hch Hv H1 H0 Hpid Hlen He Hnd ef.
   destruct (strict_decode_of_encoding3_pub tblb TBL L o tag attrs ch bs HP HV HX HT Hv H1 H0 Hpid Hlen He)
-    as (d & evs & Hbs & Hden & HM & Hpub).
+    as (d & evs & Hbs & Hden & HM & Hpub & Hpubt).
   subst bs.
   assert (Hp : parse_with TBL forced 0 (S (length (serialize d))) (serialize d) = POk evs).
-  { destruct Hch as [[-> Hid] | [-> [Hp1 Hfp]]].
+  { destruct Hch as [[[-> Hid] | [-> [Hp1 Hfp]]] | [-> (p & Hp & Hfp)]].
     - apply (parse_denote_with TBL (fun l0 _ _ => typed_wv_agree_proved) typed_datetime_agree_proved (l_id L) (Some L) d); [|exact Hden].
       split; [reflexivity|]. split; [exact Hid|exact HFind].
     - apply (parse_denote TBL (fun l0 _ _ => typed_wv_agree_proved) typed_datetime_agree_proved d).
@@ -80,7 +109,15 @@ Proof.
         replace (E.header_public_id (E.enc_env (D2.to_blang L) o) =? 0) with false by (symmetry; apply N.eqb_neq; exact H0).
         cbn [negb orb]. exact Hfp.
       + unfold AB.header_pid. replace (E.header_public_id (E.enc_env (D2.to_blang L) o) =? 1) with false by (symmetry; apply N.eqb_neq; exact Hp1).
-        reflexivity. }
+        reflexivity.
+    - apply (parse_denote TBL (fun l0 _ _ => typed_wv_agree_proved) typed_datetime_agree_proved d).
+      apply (denote_unforced TBL L d); [|exact Hden].
+      destruct (Hpubt p Hp) as (i & Hi & Hs & Hb). rewrite Hi. unfold lang_of_pub.
+      assert (Hlt : i < blen (wd_strtbl d)).
+      { unfold str_at in Hs. destruct (i <? blen (wd_strtbl d)) eqn:El; [apply N.ltb_lt; exact El|discriminate]. }
+      replace (u32_okb i) with true by (symmetry; unfold u32_okb; apply N.ltb_lt; lia).
+      replace (i =? 4294967295) with false by (symmetry; apply N.eqb_neq; lia).
+      cbn [negb andb]. rewrite Hs. exact Hfp. }
   unfold tree_from_wbxml. rewrite Hp.
   set (e := E.enc_env (D2.to_blang L) o) in *. set (wa := E.has_attr_table e) in *.
   revert HM Hnd. unfold D3.doc_events3, TreeNorm.norm. fold wa. cbn [flat_map TreeNorm.norm_node TK.events3 tnw app]. rewrite !app_nil_r.
@@ -114,7 +151,7 @@ Theorem conversion_roundtrip_wide_choice evs expat_ok o doc w (L : lang) tag att
   AB.plain_env e = true -> D2.vals_ok L = true -> l_exts L = None ->
   TK.tree_ok3 L 0 (E.NElt tag attrs ch) = true ->
   find (fun x => l_id x =? l_id L) TBL = Some L ->
-  lang_choice TBL L (E.header_public_id e) (wo_lang o') -> wo_charset o' = 0 ->
+  lang_choiceW TBL L e (wo_lang o') -> wo_charset o' = 0 ->
   E.o_version o < 4 -> E.header_public_id e < 4294967296 -> E.header_public_id e <> 0 ->
   (match AB.header_pid e with Some p => D2.okb p = true | None => True end) ->
   no_data (D3.doc_events3 L e (E.o_keep_ws o) (E.NElt tag attrs ch)) = true ->
